@@ -2,3 +2,5 @@ pub mod build;
 pub mod model;
 pub mod ufo;
 pub mod corpus;
+pub mod gplist;
+pub mod reformat;
